@@ -137,6 +137,8 @@ impl EnvEngine {
                 ast::PreKind::FailExec(_) => "pre_failed_exec",
                 ast::PreKind::DepthExec(_) => "pre_exec_into_depth_limit",
                 ast::PreKind::OkExec(_) => "pre_ok_exec",
+                ast::PreKind::SiblingCtx(_) => "pre_sibling_context_diverged_and_executed",
+                ast::PreKind::SiblingBind(_) => "pre_sibling_bindings_diverged_and_executed",
             };
             *fired.entry(k.into()).or_insert(0) += 1;
         }
